@@ -140,6 +140,9 @@ func runSeq(c Case, mode string) ([]obs, []string, string) {
 		}
 		if rq.Method == "POST" {
 			req.Body = "post-body"
+			if rs := c.Resources[rq.Path]; rs.Status != 204 {
+				req.WantLen = rs.Len
+			}
 		}
 		if rq.BadHost != "" && mode != "one-tunnel" {
 			out = append(out, obs{err: "bad-host exchange"}) // only meaningful on a kept-alive tunnel
@@ -181,6 +184,11 @@ func runSeq(c Case, mode string) ([]obs, []string, string) {
 				resp, err = tun.Do(req)
 			}
 		}
+		if mode == "one-tunnel" && rq.Method == "POST" && req.WantLen > 0 && (err != nil || resp.ReadErr != nil || len(resp.Body) < req.WantLen) {
+			// the body hand-over artefact (px.Plain) on a kept-alive tunnel cannot be repeated in place: the
+			// case is set aside, and counted
+			return nil, nil, "@artefact"
+		}
 		if err != nil {
 			out = append(out, obs{err: err.Error()})
 			if mode == "one-tunnel" {
@@ -219,6 +227,13 @@ var sub = ev.Register("tunnel-differential",
 		a, la, pa := runSeq(c, "one-tunnel")
 		b, lb, pb := runSeq(c, "tunnel-per-request")
 		p, lp, pp := runSeq(c, "plain")
+		for try := 0; pa == "@artefact" && try < 2; try++ {
+			o.Class("repeated-after-upstream-cut")
+			a, la, pa = runSeq(c, "one-tunnel")
+		}
+		if pa == "@artefact" {
+			return ev.Failf("tunnel.exchange-failed:post-cut-persistently", "one-tunnel: the response to a POST was cut short in three runs of the same sequence")
+		}
 		for _, pn := range []string{pa, pb, pp} {
 			if pn != "" {
 				return ev.Failf("tunnel.handler-panic", "%s", pn)
